@@ -13,4 +13,7 @@ class Parameter(ASTNode):
         return '\t' * level + f'Parameter({repr(self.value)})'
 
     def get_string(self, *args, **kwargs):
+        if self.value == '?':
+            # positional placeholder, as it is written in the query
+            return '?'
         return ':' + str(self.value)
